@@ -1,7 +1,7 @@
 (* Properties_C02.v — ONLY the property theorems for C02 (bounded work, bounded growth).
    Models: Model/LoopModel.v (control skeleton of the rule loop; insert budget), Model/PosModel.v (depth cut-off of finalise),
    Model/VmModel.v (operand stack; see Properties_C07.v for the interpreter theorems). *)
-From GR Require Import Base.Bytes Model.LoopModel Proofs.LoopProofs Gen.GenLoop Proofs.GenAgreeLoop Model.SparseModel Proofs.SparseProofs Model.RuleModel Proofs.LoopBridge.
+From GR Require Import Base.Bytes Model.LoopModel Proofs.LoopProofs Gen.GenLoop Proofs.GenAgreeLoop Model.SparseModel Proofs.SparseProofs Model.RuleModel Proofs.LoopBridge Model.PosModel Proofs.PosProofs.
 From Coq Require Import List NArith ZArith.
 Import ListNotations.
 Local Open Scope N_scope.
@@ -44,6 +44,18 @@ Proof. vm_compute. split; [discriminate | reflexivity]. Qed.
 Theorem C02_constants_tied : GenLoop.growth_factor = LoopModel.growth_factor /\ 1 <= GenLoop.min_max_loop /\ GenLoop.depth_cutoff + 1 = 101.
 Proof. exact gen_loop_consts_agree. Qed.
 Print Assumptions C02_constants_tied.
+
+(* The recursion that positions a cluster is cut off along EVERY path, child links and sibling links alike: what finalise computes
+   on an attachment tree is what it computes on the tree pruned 101 links from the base — no deeper slot is ever visited, so the
+   native stack it uses does not grow with the size of the cluster. *)
+Theorem C02_finalise_recursion_bounded : forall fuel k t isroot base cmin,
+  finalise fuel k t isroot base cmin = finalise fuel k (prune fuel t) isroot base cmin /\ (link_depth (prune fuel t) <= S fuel)%nat.
+Proof. intros. split; [apply finalise_prune | apply prune_depth]. Qed.
+Print Assumptions C02_finalise_recursion_bounded.
+(* tie A: in the current source both recursive calls of Slot::finalise and of Slot::floodShift pass depth + 1 *)
+Theorem C02_recursion_depth_tied : GenLoop.fin_child_depth_inc = 1 /\ GenLoop.fin_sibling_depth_inc = 1 /\ GenLoop.flood_child_depth_inc = 1 /\ GenLoop.flood_sibling_depth_inc = 1.
+Proof. exact gen_depth_incs_agree. Qed.
+Print Assumptions C02_recursion_depth_tied.
 
 (* The glyph-attribute store (graphite2::sparse): whatever (key, value) pairs it was built from, operator[] reads inside its array
    for EVERY 16-bit key — the branch-free arithmetic never indexes outside the chunk table plus the packed values. *)
